@@ -116,4 +116,79 @@ example : (runProg (initStore "p" "k" "junk")
     [ .alloc .ifft (fun r => r .points ++ "'"), .inplace .points (fun r => r .points ++ "+" ++ r .ifft) ]).heap 0
       ≠ "p" := by decide
 
+/-! ### C20, part 4: input variables are picked by name on the channel axis, at every grid point -/
+
+/-- picking a model's variables (`points[..., names]`, `Parallel`) commutes with shifts of the grid -/
+theorem selectVars_shift (src dst : Vars) (x : Idx → ℕ → ℝ) (i N a : ℕ) :
+    selectVars src dst (rollAxis i N a x) = (selectVars src dst x).map (rollAxis i N a) := by
+  simp only [selectVars]; split <;> rfl
+
+/-- `_fix_points_order` commutes with shifts of the grid -/
+theorem fixOrder_shift (src inS : Vars) (x : Idx → ℕ → ℝ) (i N a : ℕ) :
+    fixOrder src inS (rollAxis i N a x) = (fixOrder src inS x).map (rollAxis i N a) := by
+  simp only [fixOrder]
+  split
+  · rfl
+  · split
+    · exact selectVars_shift src inS x i N a
+    · rfl
+
+/-- `FNO.forward` on `Points` whose variables are listed in any order (`src`) commutes with circular shifts
+    along any spatial axis; it is rejected (`none`) for the shifted input iff it is for the original one. -/
+theorem fnoFix_shift_equivariant (src inS : Vars) (pre : List ℕ) (last C : ℕ) (up down : (ℕ → ℝ) → (ℕ → ℝ))
+    (layers : List (Layer ℝ × (ℝ → ℝ))) (x : Idx → ℕ → ℝ)
+    (i N a : ℕ) (hi : (pre ++ [last])[i]? = some N) (hN : 0 < N) :
+    fnoFix src inS pre last C up down layers (rollAxis i N a x)
+      = (fnoFix src inS pre last C up down layers x).map (rollAxis i N a) := by
+  simp only [fnoFix, fixOrder_shift]
+  cases fixOrder src inS x with
+  | none => rfl
+  | some y => simp [fno_shift_equivariant pre last C up down layers y i N a hi hN]
+
+/-- the same for an FNO that is a member of `tp.models.Parallel` -/
+theorem fnoSelect_shift_equivariant (src inS : Vars) (pre : List ℕ) (last C : ℕ) (up down : (ℕ → ℝ) → (ℕ → ℝ))
+    (layers : List (Layer ℝ × (ℝ → ℝ))) (x : Idx → ℕ → ℝ)
+    (i N a : ℕ) (hi : (pre ++ [last])[i]? = some N) (hN : 0 < N) :
+    fnoSelect src inS pre last C up down layers (rollAxis i N a x)
+      = (fnoSelect src inS pre last C up down layers x).map (rollAxis i N a) := by
+  simp only [fnoSelect, selectVars_shift]
+  cases selectVars src inS x with
+  | none => rfl
+  | some y =>
+    simp only [Option.map_some, Option.bind_some, fixOrder_shift]
+    cases fixOrder inS inS y with
+    | none => rfl
+    | some z => simp [fno_shift_equivariant pre last C up down layers z i N a hi hN]
+
+/-- **Variables are identified by name.**  If the same named data are handed over in another order `src` of
+    the variables (distinct names), `_fix_points_order` accepts them and restores every column of the model's
+    own layout, at every grid point. -/
+theorem fixOrder_by_name {src inS : Vars} (h : SameVars src inS) (x : Idx → ℕ → ℝ) :
+    ∃ y, fixOrder src inS (fun n => relayout inS src (x n)) = some y ∧ ∀ n c, c < vdim inS → y n c = x n c := by
+  by_cases e : src = inS
+  · subst e
+    refine ⟨_, by simp [fixOrder], fun n c hc => relayout_self h.nodupA (x n) c hc⟩
+  · refine ⟨fun n => relayout src inS (relayout inS src (x n)), ?_, fun n c hc => relayout_roundtrip h (x n) c hc⟩
+    simp [fixOrder, e, sameKeySet_of_same h, selectVars, selectable_of_same h]
+
+/-- An FNO (linear up-sampling of the `vdim inS` input channels, as constructed by default) returns the same
+    field whether the input variables are listed in its own order or in any other order. -/
+theorem fnoFix_by_name {src inS : Vars} (h : SameVars src inS) (pre : List ℕ) (last C : ℕ)
+    (W : ℕ → ℕ → ℝ) (b : ℕ → ℝ) (down : (ℕ → ℝ) → (ℕ → ℝ)) (layers : List (Layer ℝ × (ℝ → ℝ))) (x : Idx → ℕ → ℝ) :
+    fnoFix src inS pre last C (linear (vdim inS) W b) down layers (fun n => relayout inS src (x n))
+      = fnoFix inS inS pre last C (linear (vdim inS) W b) down layers x := by
+  obtain ⟨y, hy, hyx⟩ := fixOrder_by_name h x
+  have hup : pointwise (linear (vdim inS) W b) y = pointwise (linear (vdim inS) W b) x := by
+    funext n
+    exact linear_congr _ _ _ _ _ (fun c hc => hyx n c hc)
+  have hself : fixOrder inS inS x = some x := by simp [fixOrder]
+  simp only [fnoFix]
+  rw [hy, hself]
+  simp only [Option.map_some, fno, hup]
+
+/-- non-vacuity: `(g, f)` and `(f, g)` are two layouts of the same variables; column 0 of the model's layout
+    `(f:2, g:1)` is read from column 1 of the data laid out as `(g:1, f:2)` -/
+example : SameVars [("g", 1), ("f", 2)] [("f", 2), ("g", 1)] ∧ srcCol [("g", 1), ("f", 2)] [("f", 2), ("g", 1)] 0 = some 1 :=
+  ⟨⟨by decide, by decide, by intro e; simp only [List.mem_cons, List.not_mem_nil, or_false]; tauto⟩, by decide⟩
+
 end TPV.Fourier
